@@ -1,4 +1,6 @@
 """C01–C04, C07: answers of the static solvers judged by the proved reference deciders."""
+import re
+
 import gen
 from engine import Property, Finding
 
@@ -329,7 +331,10 @@ class SolveProperty(Property):
         answers = Counter()
         for c in cases:
             p = kv(c)
-            sems["%s/%s/%s" % (p.get("sem"), p.get("task"), p.get("enc"))] += 1
+            if c.startswith("dyn "):
+                sems["dynamic/%s" % p.get("kind")] += 1
+            else:
+                sems["%s/%s/%s" % (p.get("sem"), p.get("task"), p.get("enc"))] += 1
             lines = impl.get(c.split(" ")[1], [])
             for l in lines:
                 if l.startswith("fw "):
@@ -371,7 +376,21 @@ class C04(SolveProperty):
     id = "C04"
     tasks = ["DC", "DS"]
     certs = [1]
-    rule = C02.rule + "; certificate variants only"
+    needs_bins = True
+    rule = C02.rule + ("; certificate variants only; plus the command line, where the encoding is selected: `crustabri solve -c` for every DC/DS problem x "
+                       "{default, aux_var, exp, hybrid} on the dispatch frameworks with a recording external solver - the SAT instances are compared with the "
+                       "composed Lean model (dispatchSolver, dispatchEncoder, entryProg) and the printed certificate is judged")
+
+    def extra(self, ctx):
+        import random
+        import props_cli
+        rng = random.Random(ctx["seed"])
+        c05 = props_cli.C05()
+        findings, cov = c05.dispatch_trace(ctx, rng, tasks=("DC", "DS"), force_cert=True)
+        f2, c2 = c05.search_after_dispatch_break(ctx, rng, findings)
+        findings += f2
+        cov.update(c2)
+        return findings, cov
 
 
 class C07(SolveProperty):
